@@ -10,6 +10,7 @@ package gdbi
 // whose current element is r and whose signal is t's; t itself is unchanged.
 
 //@ func (*BaseTraveler).AddCurrent
+//@   vars t r o k v i
 //@   property C01 C06
 //@   nopanic
 //@   requires nonnil: t != nil
@@ -35,6 +36,7 @@ package gdbi
 
 // AddMark: marks = t's marks with label bound to r; path and current element kept.
 //@ func (*BaseTraveler).AddMark
+//@   vars t label r o k v i
 //@   property C01 C06
 //@   nopanic
 //@   requires nonnil: t != nil
@@ -54,6 +56,7 @@ package gdbi
 //@   ensures path: forall j :: 0 <= j && j < n ==> res.Path[j] == t.Path[j]
 
 //@ func (*BaseTraveler).GetCurrentID
+//@   vars t
 //@   property C06
 //@   nopanic
 //@   pure
@@ -62,18 +65,21 @@ package gdbi
 //@   ensures null: t.Current == nil ==> result == ""
 
 //@ func (*BaseTraveler).IsSignal
+//@   vars tr
 //@   property C01
 //@   pure
 //@   requires nonnil: tr != nil
 //@   ensures def: result <==> tr.Signal != nil
 
 //@ func (*BaseTraveler).IsNull
+//@   vars tr
 //@   property C01
 //@   pure
 //@   requires nonnil: tr != nil
 //@   ensures def: result <==> tr.Current == nil
 
 //@ func (*DataElement).ToVertex
+//@   vars elem sValue err
 //@   property C06 C03
 //@   nopanic
 //@   pure
@@ -82,6 +88,7 @@ package gdbi
 //@   ensures ids: result.Gid == elem.ID && result.Label == elem.Label
 
 //@ func (*DataElement).ToEdge
+//@   vars elem sValue
 //@   property C06 C03
 //@   nopanic
 //@   pure
